@@ -8,10 +8,11 @@ TOK = {"ident": ["zz", "\\61 b", "-x"], "IDENT-and": ["and"], "ident-important":
        "expression(": ["expression("], "@charset-sp": ["@charset "], "@charset": ["@charset"], "@import": ["@import"], "@media": ["@media"],
        "@page": ["@page"], "@font-face": ["@font-face"], "@namespace": ["@namespace"], "@variables": ["@variables"], "@top-left": ["@top-left"],
        "@x": ["@x"], "hash": ["#abc", "#1"], "string": ['"s"', "'t'", '"http://[x"'], "uri": ["url(u)", "url(http://[x)"], "number": ["1", "-.5"], "percentage": ["50%"],
-       "dimension": ["1px", "2e3"], "dimension-esc": ["1\\a x", "1\\70 x"], "number-huge": ["9" * 400, "1" + "0" * 400 + ".5", "-" + "9" * 400 + ".5", "-" + "9" * 400], "urange": ["u+0-7f"], "~=": ["~="], "|=": ["|="], "cdo": ["<!--"], "cdc": ["-->"], "S": [" ", "\t"],
+       "dimension": ["1px", "2e3"], "dimension-esc": ["1\\a x", "1\\70 x"], "number-huge": ["9" * 5000, "-" + "9" * 4400 + "px", "9" * 400, "1" + "0" * 400 + ".5", "-" + "9" * 400 + ".5", "-" + "9" * 400], "urange": ["u+0-7f"], "~=": ["~="], "|=": ["|="], "cdo": ["<!--"], "cdc": ["-->"], "S": [" ", "\t"],
        "comment": ["/*c*/"], "{": ["{"], "}": ["}"], "(": ["("], ")": [")"], "[": ["["], "]": ["]"], ";": [";"], ":": [":"], ",": [","], ".": ["."],
        "*": ["*"], ">": [">"], "+": ["+"], "!": ["!"], "/": ["/"], "=": ["="], "#": ["#"], "@": ["@"], "%": ["%"], "&": ["&"], "$": ["$"],
        "-": ["-"], "|": ["|"], "bs": ["\\"], "open-string": ['"abc', "'abc"], "open-comment": ["/* abc"], "open-url": ["url(abc", 'url("abc'],
+       "esc-nl-end": ["#abc\\a ", "zz\\a ", "1px\\a ", '"s\\a "', "url(u\\a )", "@x\\a ", "#abcde\\a", "f\\a ("],
        "nonascii": ["é"], "astral": ["\U0001F600"], "ctl": ["\x01", "\x00"], "nl": ["\n", "\r\n", "\f"]}
 CTX = {"sheet": "", "after-charset": '@charset "utf-8"', "import-prelude": "@import ", "namespace-prelude": "@namespace ", "media-prelude": "@media ",
        "media-rules": "@media print { ", "page-prelude": "@page ", "page-block": "@page { ", "fontface-block": "@font-face { ",
@@ -26,6 +27,7 @@ RUN_OPEN = {"url(": ("url(", ")"), "url-dq": ('url("', '")'), "url-sq": ("url('"
             "ident": ("a", " "), "hash": ("#", " "), "number": ("1", "px"), "at": ("@", ";"), "func": ("f(", ")"), "urange": ("u+", " "),
             "cdo": ("<!--", "-->"), "attr-dq": ('[a="', '"]'), "important": ("!", "important"), "bs": ("\\", " ")}
 RUN_BODY = {"letters": "a", "digits": "1", "spaces": " ", "bs-pairs": "\\\\", "stars": "*", "escaped-quotes": '\\"', "nonascii": "\u00e9", "hex-escapes": "\\41 ",
+            "hex-letter-upper": "\\A ", "hex-letter-mixed": "\\aB ",
             "dashes": "-", "nl-escapes": "\\\n", "slashes": "/", "dots": "."}
 TEXTS = {"plain": 'a { left: 0 } @media print { b { top: 1px } }', "malformed": 'a { left: } } @import "late"; b {{ x ]',
          "charset-hex": '@charset "hex";\na { left: 0 }', "charset-css": '@charset "css";\na { left: 0 }',
